@@ -27,6 +27,7 @@ non-zero: the check then reports the Lean obligations as broken and the harness 
 """
 import ast
 import os
+import re
 import sys
 
 import dimod
@@ -279,6 +280,75 @@ def inplace(cx, lv, op, rv):
     return binop(cx, lv, op, rv)
 
 
+# ---------------------------------------------------------------- the product loops of __mul__
+
+def product_step(cls):
+    """the body of the inner loop of `cls.__mul__` (the case analysis on `u == v` and the vartype) as a Lean expression over
+    `u v : Var`, `acc : Model` (and `selfvt : VT` for a BQM); the rest of the block (allocation, `add_variable` loops, outer
+    loop with its trailing `add_linear`, tail loop, offset) must be literally the skeleton `Sym.mulOuter`/`mulTail`/`qmMul` model"""
+    fn = M[cls]['__mul__']
+    branch = next((st.body for st in fn.body if isinstance(st, ast.If) and ast.unparse(st.test) == f'isinstance(other, {FILES[cls][1]})'), None)
+    if branch is None:
+        die(f'{cls}.__mul__: no branch for {FILES[cls][1]}')
+    k = next((i for i, st in enumerate(branch) if isinstance(st, ast.Assign) and ast.unparse(st.value) in PRODUCT_ALLOC), None)
+    if k is None:
+        die(f'{cls}.__mul__: allocation of the product not found')
+    X = ast.unparse(branch[k].targets[0])
+    rest = branch[k + 1:]
+    addvar = [f'for v in {w}.variables:\n    {X}.add_variable({w}.vartype(v), v, lower_bound={w}.lower_bound(v), upper_bound={w}.upper_bound(v))'
+              for w in ('self', 'other')] if cls == 'QM' else []
+    head = addvar + ['self_offset = self.offset', 'other_offset = other.offset']
+    tail = [f'for v, bias in other.linear.items():\n    {X}.add_linear(v, bias * self_offset)', f'{X}.offset += self_offset * other_offset', f'return {X}']
+    if len(rest) != len(head) + 1 + len(tail):
+        die(f'{cls}.__mul__: product block has {len(rest)} statements, expected {len(head) + 1 + len(tail)}')
+    for st, want in list(zip(rest[:len(head)], head)) + list(zip(rest[len(head) + 1:], tail)):
+        if ast.unparse(st) != want:
+            die(f'{cls}.__mul__: expected `{want}`, found `{ast.unparse(st)}`')
+    outer = rest[len(head)]
+    if not (isinstance(outer, ast.For) and ast.unparse(outer.target) == '(u, ubias)' and ast.unparse(outer.iter) == 'self.linear.items()'
+            and not outer.orelse and len(outer.body) == 2 and ast.unparse(outer.body[1]) == f'{X}.add_linear(u, ubias * other_offset)'):
+        die(f'{cls}.__mul__: outer loop not of the shape `for u, ubias in self.linear.items(): <inner loop>; add_linear(u, ubias * other_offset)`')
+    inner = outer.body[0]
+    if not (isinstance(inner, ast.For) and ast.unparse(inner.target) == '(v, vbias)' and ast.unparse(inner.iter) == 'other.linear.items()'
+            and not inner.orelse):
+        die(f'{cls}.__mul__: inner loop not `for v, vbias in other.linear.items()`')
+
+    def tr_test(t):
+        if isinstance(t, ast.BoolOp) and isinstance(t.op, ast.Or):
+            return ' ∨ '.join(tr_test(x) for x in t.values)
+        s_ = ast.unparse(t)
+        if s_ == 'u == v':
+            return 'u.l = v.l'
+        m = re.fullmatch(r'(self\.vartype|u_vartype) is Vartype\.(BINARY|SPIN|INTEGER|REAL)', s_)
+        if m and (m.group(1) == 'u_vartype' or cls == 'BQM'):
+            return f"{'selfvt' if m.group(1) == 'self.vartype' else 'u.info.vt'} = .{m.group(2).lower()}"
+        die(f'{cls}.__mul__: unrecognised test `{s_}`')
+
+    def tr(stmts):
+        stmts = list(stmts)
+        while stmts and ast.unparse(stmts[0]) == 'u_vartype = self.vartype(u)':
+            stmts.pop(0)
+        if len(stmts) != 1:
+            die(f'{cls}.__mul__: a branch of the inner loop has {len(stmts)} statements')
+        st = stmts[0]
+        if isinstance(st, ast.If):
+            if not st.orelse:
+                die(f'{cls}.__mul__: `if` without else in the inner loop')
+            return f'(if {tr_test(st.test)} then {tr(st.body)} else {tr(st.orelse)})'
+        if isinstance(st, ast.Raise):
+            return '.error .value'
+        s_ = ast.unparse(st)
+        if s_ == f'{X}.add_linear(u, ubias * vbias)':
+            return 'addLinear acc u.l (u.bias * v.bias)'
+        if s_ == f'{X}.offset += ubias * vbias':
+            return '.ok (acc.addOffset (u.bias * v.bias))'
+        if s_ == f'{X}.add_quadratic(u, v, ubias * vbias)':
+            return 'addQuadratic acc u.l v.l (u.bias * v.bias)'
+        die(f'{cls}.__mul__: unrecognised statement `{s_}` in the inner loop')
+
+    return tr(inner.body)
+
+
 A, B, Q = 'a', 'b', 'q'
 KINDS = {'bqm': 'BQM', 'qm': 'QM', 'view': 'VIEW', 'num': 'NUM'}
 
@@ -345,6 +415,11 @@ def main():
               f'def {name}Result (a b n : Nat) : Nat := {res}', '']
         writes_operand = any(i.split()[0] in ('.scale', '.update', '.addOffset') and not i.split()[1].lstrip('(').startswith('n') for i in ins)
         (inpl if ip and writes_operand else fresh).append(name)
+    L += ['/-- the body of the inner loop of `QuadraticModel.__mul__` (the rest of the product block is literally the skeleton of',
+          '    `Sym.qmMul`: `add_variable` loops, outer loop + `add_linear(u, ubias*other_offset)`, tail loop, offset) -/',
+          'def qmMulStep (u v : Var) (acc : Model) : Except Err Model :=', '  ' + product_step('QM'), '',
+          '/-- the body of the inner loop of `BinaryQuadraticModel.__mul__` (same-vartype branch), `selfvt` = `self.vartype` -/',
+          'def bqmMulStep (selfvt : VT) (u v : Var) (acc : Model) : Except Err Model :=', '  ' + product_step('BQM'), '']
     nonin = [n for n, _d, ins, _r, ip in ps if ins is not None and not ip]
     L += ['/-- the bodies of all NON-in-place operator forms -/',
           'def nonInplace (a b : Nat) (q : Rat) (n : Nat) : List (List Instr) :=',
